@@ -49,6 +49,9 @@ M = [
  ("C08-stale-count-fix-reverted", "C08", "src/mygrad/_utils/lock_management.py",
   "    if tracked_ref is not None and tracked_ref() is None:\n", "    if False:\n",
   "a stale lock count of a dead array is applied to a natively read-only array with the same id (fixes 13/15 reverted; needs id reuse)"),
+ ("C08-tracker-entry-only-on-first-lock", "C08", "src/mygrad/_utils/lock_management.py",
+  "        _array_counter[arr_id] = 1\n    else:\n        _array_counter[arr_id] += 1\n", "        _array_tracker[arr_id] = ref(arr)\n        _array_counter[arr_id] = 1\n        if arr.flags.writeable is True:\n            arr.flags.writeable = False\n        return arr\n    else:\n        _array_counter[arr_id] += 1\n        if arr.flags.writeable is True:\n            arr.flags.writeable = False\n        return arr\n",
+  "the tracker entry is only written on the first lock (fix 16 reverted): a finalizer between the tracked-check and the increment leaves a count without an entry (needs GC pre-emption)"),
  ("C08-stale-count-guard-too-wide", "C08", "src/mygrad/_utils/lock_management.py",
   "    if tracked_ref is not None and tracked_ref() is None:\n", "    if tracked_ref is None or tracked_ref() is None:\n",
   "the first version of fix 13: every array without a live tracker entry is skipped on release (leaks a lock when the cyclic GC runs between the tracked-check and the increment)"),
